@@ -60,7 +60,10 @@ impl MemBuilder for SimBuilder {
 }
 impl MemBuilderSizeable for SimBuilder {
     fn build_with_size(&mut self, element_layout: Layout, capacity: usize) -> SimMem {
-        let _ = env::on_call(Call::BuildSized, element_layout.size(), element_layout.align());
+        if env::on_call(Call::BuildSized, element_layout.size(), element_layout.align()).is_err() {
+            // allocating the requested capacity failed
+            std::panic::panic_any(Injected("mem"));
+        }
         SimMem::fresh(element_layout, env::exact_target(capacity))
     }
 }
